@@ -58,21 +58,36 @@ func IsValid(name string) error {
 }
 
 // Parse Returns an Address instance if the given path is valid
-func Parse(path string) (Address, error) {
-	if err := IsValid(path); err != nil {
-		return nil, errors.Wrap(err, fmt.Sprintf("not a valid OrbitDB address: %s", path))
+func Parse(addr string) (Address, error) {
+	if err := IsValid(addr); err != nil {
+		return nil, errors.Wrap(err, fmt.Sprintf("not a valid OrbitDB address: %s", addr))
 	}
 
-	path = strings.TrimPrefix(path, "/orbitdb/")
-	parts := strings.Split(path, "/")
+	addr = strings.TrimPrefix(addr, "/orbitdb/")
+	parts := strings.Split(addr, "/")
 
 	c, err := cid.Decode(parts[0])
 	if err != nil {
 		return nil, fmt.Errorf("unable to parse CID: %w", err)
 	}
 
+	// String prints the address as a cleaned path: the path is kept in that
+	// form, so that the printed address parses back to the same address, and
+	// parent-directory segments must not lead out of the root, or the printed
+	// address would name another database than the one parsed
+	name := strings.Join(parts[1:], "/")
+	if name != "" {
+		if name = path.Clean(name); name == "." {
+			name = ""
+		}
+	}
+
+	if name == ".." || strings.HasPrefix(name, "../") {
+		return nil, fmt.Errorf("not a valid OrbitDB address: %s does not stay below its root", addr)
+	}
+
 	return &address{
 		root: c,
-		path: strings.Join(parts[1:], "/"),
+		path: name,
 	}, nil
 }
